@@ -395,6 +395,9 @@ def dataset_spec(draw, n_lo=2, n_hi=6, mazes_lo=0, mazes_hi=8, ctors=None, with_
         spec["endpoint"] = draw(endpoint_kwargs(n, satisfiable_bias))
     if with_filters and draw(st.booleans()):
         spec["filters"] = draw(filter_list(allow=filter_allow))
+    if draw(st.integers(0, 3)) == 3:
+        # how the caller arrived at the configuration object: built, looked at, then edited in place to this content (lib.make_cfg)
+        spec["built"] = {"use": draw(st.integers(1, 15)), "scalars": draw(st.booleans())}
     return spec
 
 
